@@ -289,7 +289,9 @@ VerdictC13(q, r) ==
 VerdictC14(rec, ref) ==
   IF rec.who = "streams" THEN (IF rec.res = "0" THEN "" ELSE "output-on-standard-streams")
   ELSE IF rec.k \notin DOMAIN ref THEN "thread-died"
-  ELSE IF rec.res # ref[rec.k] THEN (IF rec.who = "seq" THEN "result-depends-on-earlier-calls" ELSE "result-depends-on-concurrent-calls")
+  ELSE IF rec.res # ref[rec.k] THEN (IF rec.who = "seq" THEN "result-depends-on-earlier-calls"
+                                     ELSE IF rec.who = "env" THEN "result-depends-on-the-process-environment"
+                                     ELSE "result-depends-on-concurrent-calls")
   ELSE ""
 
 (* ---- C07 on token streams with hints ------------------------------------- *)
